@@ -9,7 +9,29 @@ PROPS = ("INVARIANTS TypeOK RunningListens FailedSilent NeverOnBusy MuxFollows\n
 TRACE_CFG = "SPECIFICATION TSpec\n" + (CONSTS % 100000) + "CONSTRAINT HWM\nPOSTCONDITION Accepted\n" + PROPS
 
 
+def _apalache(ctx):
+    """thorough extra: Apalache discharges the inductive invariant of the runtime FSM for an unbounded number of operations"""
+    import subprocess, tempfile, shutil, os
+    wd = tempfile.mkdtemp(prefix="apalache-", dir=ctx.scratch)
+    shutil.copy(os.path.join(ctx.specdir, "HttpServerRuntimeInd.tla"), wd)
+    res = []
+    for init, inv, ln in (("Init", "IndInv", 0), ("IndInit", "IndInv", 1), ("IndInit", "Claims", 0)):
+        try:
+            p = subprocess.run(["apalache-mc", "check", "--init=" + init, "--inv=" + inv, "--length=%d" % ln, "HttpServerRuntimeInd.tla"], cwd=wd, capture_output=True, text=True, timeout=600)
+            out = p.stdout + p.stderr
+            r = "ok" if "The outcome is: NoError" in out else ("counterexample" if "The outcome is: Error" in out else "failed")
+        except Exception as e:
+            r = "failed (%s)" % type(e).__name__
+        res.append("%s=>%s@%d %s" % (init, inv, ln, r))
+        if r == "counterexample":
+            ctx.inconclusive("Apalache refutes the inductive invariant of HttpServerRuntimeInd (%s, %s)" % (init, inv))
+    ctx.notes.append("apalache (runtime FSM invariants for an unbounded number of operations): " + "; ".join(res))
+    ctx.log("apalache: " + "; ".join(res))
+
+
 def run(ctx):
+    if not ctx.quick:
+        _apalache(ctx)
     ctx.cov["rule"] = ("behaviours = TLC -simulate runs of HttpServerRuntime (reload / occupy / free / serve-failed / check-failed / close), "
                        "each replayed on a real HTTPServer object on loopback ports; the observed (state, answering port, routed rules generation, "
                        "survival of an established connection) after every step is validated by TLC; non-trivial = behaviours with a restart or a failure")
